@@ -21,6 +21,7 @@ mod imp {
     pub fn plain_write(_: usize, _: &'static str) {}
     pub fn plain_read(_: usize, _: &'static str) {}
     pub fn region_init(_: usize, _: usize) {}
+    pub fn region_stride(_: usize, _: usize) {}
     pub fn forget(_: usize, _: usize) {}
     pub fn release_token() -> VC {
         Vec::new()
@@ -50,6 +51,10 @@ mod imp {
     struct Region {
         base: usize,
         len: usize,
+        /// size of one entry (0 = unknown): an access anywhere inside an entry is an access to
+        /// that entry, so accesses made by user code (fill callbacks writing matcher columns)
+        /// and by the library's own hooks meet at one key
+        stride: usize,
         tid: usize,
         clk: u32,
     }
@@ -97,6 +102,18 @@ mod imp {
         }
         fn tick(&mut self, t: usize) {
             self.th(t).vc[t] += 1;
+        }
+        /// the key of the entry that contains `addr` (or `addr` itself outside known buckets)
+        fn canon(&self, addr: usize) -> usize {
+            for r in &self.regions {
+                if addr >= r.base && addr < r.base + r.len {
+                    if r.stride > 0 {
+                        return r.base + (addr - r.base) / r.stride * r.stride;
+                    }
+                    return addr;
+                }
+            }
+            addr
         }
         fn region_check(&mut self, t: usize, addr: usize, what: &str) -> Option<String> {
             if self.regions.is_empty() {
@@ -234,6 +251,7 @@ mod imp {
     }
     pub fn plain_write(addr: usize, site: &'static str) {
         with(|h, t| {
+            let addr = h.canon(addr);
             h.plain_checks += 1;
             let mut msg = h.region_check(t, addr, site);
             let vc = h.threads[t].vc.clone();
@@ -258,6 +276,7 @@ mod imp {
     }
     pub fn plain_read(addr: usize, site: &'static str) {
         with(|h, t| {
+            let addr = h.canon(addr);
             h.plain_checks += 1;
             let mut msg = h.region_check(t, addr, site);
             let vc = h.threads[t].vc.clone();
@@ -280,9 +299,18 @@ mod imp {
         with(|h, t| {
             forget_in(h, base, len);
             let c = h.threads[t].vc[t];
-            h.regions.push(Region { base, len, tid: t, clk: c });
+            h.regions.push(Region { base, len, stride: 0, tid: t, clk: c });
             // later events of this task must be distinguishable from the initialisation
             h.tick(t);
+            None
+        })
+    }
+    /// entry size of the bucket that starts at `base`
+    pub fn region_stride(base: usize, stride: usize) {
+        with(|h, _t| {
+            if let Some(r) = h.regions.iter_mut().find(|r| r.base == base) {
+                r.stride = stride;
+            }
             None
         })
     }
